@@ -7,8 +7,12 @@
 package jsonrpc2
 
 import (
+	"encoding/json"
+	"fmt"
+	"os"
 	"runtime"
 	"strings"
+	"sync"
 )
 
 // This file is compiled only with the "verif" build tag. It exposes the two
@@ -84,4 +88,42 @@ func verifSnap(c *Connection, s *inFlightState) {
 	default:
 	}
 	VerifSnap(c, verifCaller(4), snap)
+}
+
+// If VERIF_TRACE_DIR is set, every critical section of every Connection in this
+// process is appended, as one JSON line, to a file in that directory. This lets
+// the repository's own tests serve as a corpus of connection histories.
+func init() {
+	dir := os.Getenv("VERIF_TRACE_DIR")
+	if dir == "" {
+		return
+	}
+	f, err := os.OpenFile(fmt.Sprintf("%s/cs-%d.ndjson", dir, os.Getpid()), os.O_CREATE|os.O_WRONLY|os.O_APPEND, 0o644)
+	if err != nil {
+		return
+	}
+	var (
+		mu   sync.Mutex
+		ids  = map[*Connection]int{}
+		next int
+	)
+	VerifSnap = func(c *Connection, fn string, s VerifSnapshot) {
+		mu.Lock()
+		defer mu.Unlock()
+		id, ok := ids[c]
+		if !ok {
+			next++
+			id = next
+			ids[c] = id
+		}
+		if s.Done {
+			delete(ids, c) // the last line of a connection; a later Close/Wait gets a fresh number, which is harmless
+		}
+		b, _ := json.Marshal(struct {
+			C  int           `json:"c"`
+			Fn string        `json:"fn"`
+			S  VerifSnapshot `json:"s"`
+		}{id, fn, s})
+		f.Write(append(b, '\n'))
+	}
 }
